@@ -30,7 +30,8 @@ def aim_keep_at_line_tag(rng, case):
         for seg in d["table"]:
             for a in ([seg] if "if" not in seg else seg["if"] + seg["else"]):
                 if a.get("a") == "dep" and a["name"] in beta:
-                    others = [x["ver"] for x in g["decls"] if x["name"] == a["name"] and x["ver"] != beta[a["name"]]]
+                    others = [x["ver"] for x in g["decls"] if x["name"] == a["name"] and x["ver"] != beta[a["name"]]
+                              and x.get("stack", 0) == 0]
                     if others:
                         cands.append((d, a, others))
     if not cands:
